@@ -8,7 +8,8 @@ rejected at configure time."""
 import os, random, re, shutil, subprocess, sys, tempfile
 from bounded.util import chunked, pmap
 
-NAMES = ['o1.txt', 'o2.txt', 'sp ace.txt', 'dol$lar.txt', 'uml-é.txt', 'o1.h']
+NAMES = ['o1.txt', 'o2.txt', 'sp ace.txt', 'dol$lar.txt', 'uml-é.txt', 'o1.h', 'e1', 'libs1.a']
+CKINDS = ['executable', 'static_library', 'shared_library', 'both_libraries']
 
 
 # ---------------------------------------------------------------- an independent reader of ninja manifests
@@ -169,8 +170,34 @@ def gen_project(rnd):
         if t['install']:
             parts.append("install: true, install_dir: 'share'")
         return ',\n  '.join(parts) + ')\n'
+    # compiled targets (C): executables and libraries linking earlier libraries, in the root, after the custom targets
+    compiled = []
+    if rnd.random() < 0.6:
+        cn = ['e1', 'e2', 's1', 'd1x', 'b1']
+        for j in range(rnd.randint(1, 3)):
+            kind = rnd.choice(CKINDS)
+            name = {'executable': ['e1', 'e2'], 'static_library': ['s1'], 'shared_library': ['d1x'], 'both_libraries': ['b1']}[kind]
+            name = next((x for x in name if x not in [c['name'] for c in compiled]), None)
+            if name is None:
+                continue
+            libs = [c for c in compiled if c['kind'] != 'executable']
+            link = rnd.sample(libs, min(len(libs), rnd.choice([0, 1])))
+            outs = {'executable': [name], 'static_library': [f'lib{name}.a'], 'shared_library': [f'lib{name}.so'], 'both_libraries': [f'lib{name}.so', f'lib{name}.a']}[kind]
+            compiled.append({'name': name, 'kind': kind, 'sub': '', 'outs': outs, 'link': link, 'default': True, 'install': False, 'gen_src': rnd.random() < 0.3})
+    unity = rnd.choice(['off', 'off', 'on']) if compiled else 'off'
+    deflib = rnd.choice(['shared', 'static', 'both'])
+
+    def cdecl(c):
+        srcs = "'m.c'" if c['kind'] == 'executable' else "'f.c'"
+        if c['gen_src']:
+            srcs += ", gen.process('x.in')"
+        lw = (', link_with: [' + ', '.join(x['name'] for x in c['link']) + ']') if c['link'] else ''
+        return f"{c['name']} = {c['kind']}('{c['name']}', {srcs}{lw})\n"
     tests = []
-    root_txt = "project('gen', default_options: ['layout=" + layout + "'])\npy = find_program('python3')\n" + ''.join(decl(t) for t in root)
+    lang = ", 'c'" if compiled else ''
+    root_txt = "project('gen'" + lang + ", default_options: ['layout=" + layout + "', 'unity=" + unity + "', 'default_library=" + deflib + "'])\npy = find_program('python3')\n" + ''.join(decl(t) for t in root)
+    if compiled:
+        root_txt += "gen = generator(py, output: '@BASENAME@.c', arguments: ['-c', 'pass', '@INPUT@', '@OUTPUT@'])\n" + ''.join(cdecl(c) for c in compiled)
     d1_txt = ''.join(decl(t) for t in d1)
     tail = ''
     if d1:
@@ -184,13 +211,23 @@ def gen_project(rnd):
     if rnd.random() < 0.4:
         tail += "run_target('rt', command: [py, '-c', 'pass']" + (", depends: [" + targets[0]['name'] + "]" if targets else '') + ")\n"
     files = {'meson.build': root_txt + tail}
+    if compiled:
+        files['m.c'] = 'int main(void) { return 0; }\n'
+        files['f.c'] = 'int f(void) { return 1; }\n'
+        files['x.in'] = ''
+        if rnd.random() < 0.5:
+            tail2 = "test('ct', " + next((c['name'] for c in compiled if c['kind'] == 'executable'), 'py') + ")\n"
+            files['meson.build'] += tail2
+            ex = [c for c in compiled if c['kind'] == 'executable'][:1]
+            tests = tests + ex
     if d1:
         files['d1/meson.build'] = d1_txt
+    targets = targets + compiled
     for t in targets:
         t['paths'] = [('meson-out/' + o) if layout == 'flat' else (o if not t['sub'] else t['sub'] + '/' + o) for o in t['outs']]
     allp = [p for t in targets for p in t['paths']]
     collide = len(allp) != len(set(allp))
-    return files, {'layout': layout, 'targets': targets, 'tests': tests, 'collide': collide}
+    return files, {'layout': layout, 'targets': targets, 'tests': tests, 'collide': collide, 'unity': unity, 'default_library': deflib}
 
 
 def stub_ninja(d):
@@ -216,7 +253,7 @@ def _graph_chunk(chunk):
                 open(p, 'w').write(txt)
             env = dict(os.environ, NINJA=stub_ninja(d))
             r = subprocess.run([sys.executable, os.path.join(repo, 'meson.py'), 'setup', build, src], capture_output=True, text=True, env=env)
-            case = {'generator_seed': seed, 'layout': spec['layout'], 'targets': [[t['name'], t['sub'], t['outs']] for t in spec['targets']]}
+            case = {'generator_seed': seed, 'layout': spec['layout'], 'unity': spec['unity'], 'default_library': spec['default_library'], 'targets': [[t['name'], t['sub'], t['outs']] for t in spec['targets']]}
             if spec['collide']:
                 nt += 1
                 if r.returncode == 0:
@@ -268,7 +305,7 @@ def run(REG, tier, seed, jobs):
     seeds = [seed * 100003 + i for i in range(n)]
     ev, nt, fails = pmap(_graph_chunk, chunked(iter(seeds), 5), jobs)
     return {'parts': [{'name': 'C04/bounded/generated-target-graphs-through-meson-setup', 'function': 'meson setup (ninja back end, stub ninja) -> build.ninja',
-                       'bound': f'{n} generated projects: <= 5 custom targets with 1-2 outputs over {NAMES!r} in the root and a subdirectory, inputs/depends on earlier targets, build_by_default / install, a test, alias and run target, layout mirror/flat',
+                       'bound': f'{n} generated projects: <= 5 custom targets with 1-2 outputs over {NAMES!r} in the root and a subdirectory, inputs/depends on earlier targets, build_by_default / install; <= 3 compiled C targets (executable, static / shared / both libraries linking earlier libraries, generator-produced sources); tests, alias and run targets; layout mirror/flat, unity on/off, default_library shared/static/both',
                        'evaluations': ev, 'distinct_nontrivial': nt, 'rule': 'non-trivial: configured, or rejected for a collision', 'exhaustive': False, 'failures': fails}]}
 
 
